@@ -1,7 +1,9 @@
 """C20 - command-line tools compute what the library API defines.
-Model: spec/Calc.tla (semantics and relations) + spec/MC_Calc.tla (command-line generator over the projection of the
-very input the tools get); binding: spec/TraceCalc.tla; helper recorder (library view of the inputs): harness/hwv_calc.c;
-the tool invocations are process-level events recorded here (argv, stdout lines, exit status, signal - no judgement)."""
+Model: spec/Calc.tla (semantics and relations) + spec/MC_Calc.tla (hwloc-calc / hwloc-distrib command-line generator over the
+projection of the very input the tools get) + spec/MC_Lstopo.tla (lstopo command lines, and generated wide synthetic inputs
+whose exported texts have chosen lengths around the tools' buffer sizes); binding: spec/TraceCalc.tla; helper recorder (library
+view of the inputs): harness/hwv_calc.c; the tool invocations are process-level events recorded here (argv, standard input,
+stdout lines or destination file, exit status, signal - no judgement)."""
 import os, re, json, random, subprocess, signal, shutil, concurrent.futures as cf
 import vlib
 from props import c08
@@ -58,16 +60,19 @@ class Exec:
         self.lock = __import__("threading").Lock()
 
     def tool(self, name, argv, stdin=None):
-        """one process-level event: stdout / stderr go to files capped at 32 MB (a runaway tool dies of SIGXFSZ, a signal like any other)"""
+        """one process-level event: stdout / stderr go to files capped at 32 MB (a runaway tool dies of SIGXFSZ, a signal like any other);
+        stdin: None (nothing to read), or the bytes the tool finds on its standard input"""
         e = dict(os.environ)
         e.update(ENV)
         with self.lock:
             self.n += 1
             k = self.n
-        fo, fe = self.ctx.path("o-%d.txt" % k), self.ctx.path("e-%d.txt" % k)
+        fo, fe, fi = self.ctx.path("o-%d.txt" % k), self.ctx.path("e-%d.txt" % k), self.ctx.path("i-%d.txt" % k)
+        if stdin is not None:
+            open(fi, "wb").write(stdin)
         try:
-            with open(fo, "wb") as so, open(fe, "wb") as se:
-                p = subprocess.Popen(["prlimit", "--fsize=33554432", os.path.join(self.bin, name)] + argv, stdin=subprocess.DEVNULL, stdout=so, stderr=se,
+            with open(fo, "wb") as so, open(fe, "wb") as se, open(fi if stdin is not None else os.devnull, "rb") as si:
+                p = subprocess.Popen(["prlimit", "--fsize=33554432", os.path.join(self.bin, name)] + argv, stdin=si, stdout=so, stderr=se,
                                      env=e, cwd=self.ctx.dir, start_new_session=True)
                 try:
                     rc = p.wait(timeout=TIMEOUT)
@@ -84,6 +89,8 @@ class Exec:
             err = f.read().decode("utf-8", "replace")
         os.unlink(fo)
         os.unlink(fe)
+        if stdin is not None:
+            os.unlink(fi)
         lines = out.split("\n")
         if lines and lines[-1] == "":
             lines.pop()
@@ -140,9 +147,10 @@ class Exec:
                 elif j["mode"]["m"] == "fbH":
                     argv = ["-I", j["mode"]["tn"]] + (prev_lines[0].split(" ") if prev_lines and prev_lines[0] else [])
                 targs = input_argv(cur)
-                r, err = self.tool("hwloc-calc", targs + argv)
+                sin = j.get("stdin", "")
+                r, err = self.tool("hwloc-calc", targs + argv, stdin=sin.encode() if j["mode"]["m"] == "stdin" else None)
                 prev_lines = r["lines"]
-                ev = {"e": "calc", "beh": idx, "toks": j["toks"], "mode": j["mode"], "targs": targs, "argv": argv,
+                ev = {"e": "calc", "beh": idx, "toks": j["toks"], "mode": j["mode"], "targs": targs, "argv": argv, "stdin": sin,
                       "lines": r["lines"], "rc": r["rc"], "sig": r["sig"], "san": r["san"]}
             elif cmd == "distrib":
                 targs = input_argv(cur)
@@ -151,11 +159,29 @@ class Exec:
                       "lines": r["lines"], "rc": r["rc"], "sig": r["sig"], "san": r["san"]}
             elif cmd == "lstopo":
                 targs = input_argv(slots["lib"])
-                r, err = self.tool("lstopo-no-graphics", targs + j["argv"])
-                prev_lines = r["lines"]
+                lm = j["lm"]
+                outfile, existed = "", 0
+                if lm["dest"] in ("file", "filef"):        # a destination file named after the format; filef: it exists already
+                    outfile = os.path.join(wd, "out." + lm["of"])
+                    if lm["dest"] == "filef":
+                        open(outfile, "w").write("stale content\n")
+                        existed = 1
+                argv = [outfile if a == "@OUT@" else a for a in j["argv"]]
+                r, err = self.tool("lstopo-no-graphics", targs + argv)
+                text = r["text"]
+                if outfile:                                 # what lstopo wrote to its destination
+                    text = open(outfile, "rb").read().decode("utf-8", "replace") if os.path.exists(outfile) else ""
+                tl = text.split("\n")
+                if tl and tl[-1] == "":
+                    tl.pop()
+                prev_lines = tl
                 if j.get("save"):
-                    open(j["save"], "w").write(r["text"])
-                ev = {"e": "lstopo", "beh": idx, "lm": j["lm"], "targs": targs, "argv": j["argv"], "lines": r["lines"], "text": r["text"],
+                    open(j["save"], "w").write(text)
+                if lm["of"] == "console":                   # the rendering is not judged: only its size is logged
+                    text, tl = "", []
+                ml = re.search(r'"synlen":(-?\d+)', events[-1]) if j.get("T") else None     # achieved length of the library export (statistics)
+                ev = {"e": "lstopo", "beh": idx, "lm": lm, "targs": targs, "argv": argv, "outfile": outfile, "existed": existed,
+                      "lines": tl, "text": text, "nstdout": len(r["text"]), "T": j.get("T", 0), "liblen": int(ml.group(1)) if ml else -1,
                       "rc": r["rc"], "sig": r["sig"], "san": r["san"]}
             elif cmd == "diff":
                 argv = [slots["a"]["src"], slots["b"]["src"], j["out"]]
@@ -163,12 +189,14 @@ class Exec:
                 slots["diffrc"] = r["rc"]
                 ev = {"e": "diff", "beh": idx, "edit": j["edit"], "out": j["out"], "argv": argv, "lines": r["lines"], "rc": r["rc"], "sig": r["sig"], "san": r["san"]}
             elif cmd == "patch":
-                argv = (["-R", slots["b"]["src"]] if j["reverse"] else [slots["a"]["src"]]) + [j["diff"], j["out"]]
-                r, err = self.tool("hwloc-patch", argv)
+                sin = 1 if j.get("stdin") else 0       # the diff is given as "-" and fed on the standard input
+                argv = (["-R", slots["b"]["src"]] if j["reverse"] else [slots["a"]["src"]]) + ["-" if sin else j["diff"], j["out"]]
+                dbytes = open(j["diff"], "rb").read() if os.path.exists(j["diff"]) else b""
+                r, err = self.tool("hwloc-patch", argv, stdin=dbytes if sin else None)
                 if not os.path.exists(j["out"]):
                     open(j["out"], "w").write("")
                 ev = {"e": "patch", "beh": idx, "reverse": j["reverse"], "diff": j["diff"], "out": j["out"], "diffrc": slots.get("diffrc", -1),
-                      "argv": argv, "lines": r["lines"], "rc": r["rc"], "sig": r["sig"], "san": r["san"]}
+                      "stdin": sin, "dsize": len(dbytes), "argv": argv, "lines": r["lines"], "rc": r["rc"], "sig": r["sig"], "san": r["san"]}
             elif cmd == "patched":
                 err = ""
                 ev = {"e": "patched", "beh": idx, "reverse": j["reverse"], "diffrc": slots.get("diffrc", -1)}
@@ -220,16 +248,17 @@ def tla_shapes(shapes):
     return "{" + ", ".join("<<" + ", ".join('"%s"' % c for c in s) + ">>" for s in shapes) + "}"
 
 
-def mc_cfg(topofile, nstripes, stripe, other, laws=True):
-    inv = "TypeOK FoldOK Inside LargestLaw HLaw" if laws else "TypeOK"
-    return ("SPECIFICATION Spec\nCONSTANTS\n  TopoFile = \"%s\"\n  Shapes <- GShapes\n  NStripes = %d\n  Stripe = %d\n  WithOther = %s\n"
-            "INVARIANTS %s\nACTION_CONSTRAINT EmitEdge\nCHECK_DEADLOCK FALSE\n" % (topofile, nstripes, stripe, "TRUE" if other else "FALSE", inv))
+def mc_cfg(topofile, nstripes, stripe, other, laws=True, stdin=True):
+    inv = "TypeOK FoldOK Inside LargestLaw LargestEq HLaw" if laws else "TypeOK"
+    return ("SPECIFICATION Spec\nCONSTANTS\n  TopoFile = \"%s\"\n  Shapes <- GShapes\n  NStripes = %d\n  Stripe = %d\n  WithOther = %s\n  WithStdin = %s\n"
+            "INVARIANTS %s\nACTION_CONSTRAINT EmitEdge\nCHECK_DEADLOCK FALSE\n"
+            % (topofile, nstripes, stripe, "TRUE" if other else "FALSE", "TRUE" if stdin and not other else "FALSE", inv))
 
 
 def session_lines(sess):
     out = []
     for inv in sess["invs"]:
-        out.append("calc " + json.dumps({"toks": sess["toks"], "mode": inv["mode"], "argv": inv["argv"]}, separators=(",", ":")))
+        out.append("calc " + json.dumps({"toks": sess["toks"], "mode": inv["mode"], "argv": inv["argv"], "stdin": inv["stdin"]}, separators=(",", ":")))
     return out
 
 
@@ -238,53 +267,94 @@ def fam_topo_line(fam, cfg):
     return topo_line("t", kind, src, restrict, allf="0" if cfg == "calc" else "-")
 
 
-# ---------------------------------------------------------------- lstopo and diff/patch behaviours (small fixed enumerations)
-def lstopo_behaviours(fams, thorough):
-    behs = []
-    ofs = ["xml", "synthetic", "v2xml"] if thorough else ["xml", "synthetic"]
-    filts = ["", "--merge", "--no-io", "--whole-io", "--no-caches"] if thorough else ["", "--merge", "--no-io"]
-    for fam in fams:
-        name, kind, src, restrict = fam
-        for of in ofs:
-            for filt in filts:
-                for fl in ([0, 1, 2, 4, 8] if (thorough and of == "synthetic") else [0]):
-                    lm = {"of": of, "filt": filt, "xflags": 0, "sflags": fl if of == "synthetic" else 0, "extra": []}
-                    behs.append(lstopo_behaviour(fam, lm))
-        behs.append(lstopo_behaviour(fam, {"of": "bogus", "filt": "", "xflags": 0, "sflags": 0, "extra": []}))
-        behs.append(lstopo_behaviour(fam, {"of": "xml", "filt": "", "xflags": 0, "sflags": 0, "extra": ["-.xml", "second.xml"]}))
-        behs.append(lstopo_behaviour(fam, {"of": "xml", "filt": "", "xflags": 0, "sflags": 0, "extra": ["--export-xml-flags"]}))
-    return behs
+# ---------------------------------------------------------------- lstopo: command lines and wide inputs from MC_Lstopo.tla
+# smallest members of the wide families of MC_Lstopo.tla (WBaseSrc): the helper's export of them tells the model how much
+# longer than its input a description gets; the model refuses to generate members if these texts are not its own
+WIDE_BASE = {"wpu": "node:2(indexes=1,0) pu:2(indexes=100,101,3000,3001)", "wnode": "node:4(indexes=3001,3000,101,100) pu:1"}
+WIDE_FLAGS = [0, 1, 4, 5, 8, 9, 12, 13]
+CALC_WIDE_T = 1536       # the member of wpu that is also an input family of hwloc-calc / hwloc-distrib
 
 
-def lstopo_tf(filt):
-    return {"--merge": ",".join("%d:2" % t for t in range(20)), "--no-io": "16:1,17:1,18:1", "--whole-io": "16:0,17:0,18:0",
-            "--no-caches": ",".join("%d:1" % t for t in range(5, 13)), "": "-"}[filt]
+def wide_runs(thorough):
+    """which lengths of the synthetic export are aimed at: around powers of two from 1024 (lstopo's own text buffer) and well beyond"""
+    runs = []
+
+    def add(fam, sw, ts, dest="of", of="synthetic"):
+        for t in ts:
+            runs.append({"fam": fam, "sw": sw, "T": t, "dest": dest, "of": of})
+    if thorough:
+        add("wpu", "", list(range(1016, 1033)) + list(range(2045, 2051)) + list(range(4094, 4099)) + [3000, 8191, 8192, 8193, 10000])
+        add("wnode", "", list(range(1020, 1029)) + [2047, 2048, 2049, 4096, 4097])
+        for sw in ("ignore_mem", "v1", "1", "no_ext,v1", "9", "12", "13"):
+            add("wpu", sw, [1022, 1023, 1024, 1025, 2048, 4096])
+        for sw in ("v1", "1", "5"):
+            add("wnode", sw, [1023, 1024, 1025, 2048])
+        add("wpu", "", [1023, 1024, 2048, 4096], dest="file")
+        add("wpu", "", [1023, 1024, 4096], dest="filef")
+        add("wnode", "", [1024, 1025], dest="dash")
+        add("wpu", "", [1100, 3000], of="console")
+        add("wpu", "", [1100, 3000], of="xml")
+        add("wnode", "", [1100], of="xml")
+    else:
+        add("wpu", "", [1022, 1023, 1024, 1025, 2047, 2048, 5000])
+        add("wnode", "", [1023, 1024, 1025])
+        add("wpu", "ignore_mem", [1023, 1024])
+        add("wpu", "1", [1023, 1025])
+        add("wpu", "no_ext,v1", [1024])
+        add("wnode", "v1", [1024])
+        add("wpu", "", [1024, 2048], dest="file")
+        add("wnode", "", [1024], dest="dash")
+        add("wpu", "", [1100], of="console")
+        add("wpu", "", [1100], of="xml")
+    add("wpu", "", [CALC_WIDE_T])
+    seen, out = set(), []
+    for r in runs:
+        k = tuple(sorted(r.items()))
+        if k not in seen:
+            seen.add(k)
+            out.append(r)
+    return out
 
 
-def lstopo_argv(lm):
-    a = [lm["filt"]] if lm["filt"] else []
-    if lm["xflags"]:
-        a += ["--export-xml-flags", str(lm["xflags"])]
-    if lm["sflags"]:
-        a += ["--export-synthetic-flags", str(lm["sflags"])]
-    return a + lm["extra"] + ["--of", lm["of"]]
+def lstopo_model(ctx, ex, fams, thorough):
+    """runs MC_Lstopo: returns the emitted scenarios [fam, src, lm, cfg, argv, reload, T]"""
+    lines = [topo_line("base", "S", WIDE_BASE[w], allf="0", io="3", syn=str(f)) for w in sorted(WIDE_BASE) for f in WIDE_FLAGS]
+    evs = ex.helper_events(lines, 900002)
+    bf = ctx.path("wide-base.ndjson")
+    open(bf, "w").write("\n".join(evs) + "\n")
+    runs = wide_runs(thorough)
+    mod = "---- MODULE MC_Lstopo_gen ----\nEXTENDS MC_Lstopo\nGWideRuns == {%s}\n====\n" % ", ".join(
+        '[fam |-> "%s", sw |-> "%s", T |-> %d, dest |-> "%s", of |-> "%s"]' % (r["fam"], r["sw"], r["T"], r["dest"], r["of"]) for r in runs)
+    ns = 1 if thorough else 6
+    cfg = ("SPECIFICATION Spec\nCONSTANTS\n  FamNames = {%s}\n  BaseFile = \"%s\"\n  WideRuns <- GWideRuns\n  NStripes = %d\n  Stripe = %d\n"
+           "INVARIANTS TypeOK\nACTION_CONSTRAINT EmitEdge\nCHECK_DEADLOCK FALSE\n"
+           % (", ".join('"%s"' % f[0] for f in fams), bf, ns, ctx.seed % ns))
+    out, st = ctx.tlc_mc("MC_Lstopo_gen", cfg, tag="mc_lstopo", workers=2, extra_modules=[("MC_Lstopo_gen.tla", mod)], timeout=1800, heap="4g")
+    if st["error"] or st["rc"] != 0:
+        raise vlib.Infra("MC_Lstopo failed (model-level, not a violation): %s\n%s" % (st["error"], out[-2500:]))
+    items = list(vlib.tlc_printed(out, "LSTOPO"))
+    nwide = sum(1 for i in items if i["T"])
+    if nwide != len(runs):
+        raise vlib.Infra("MC_Lstopo generated %d of %d wide members (do WIDE_BASE and WBaseSrc agree?)" % (nwide, len(runs)))
+    return items
 
 
-def lstopo_behaviour(fam, lm):
-    name, kind, src, restrict = fam
-    xml = "-"
-    syn = "-"
-    if lm["of"] in ("xml", "v2xml"):
-        xml = str(lm["xflags"] + (2 if lm["of"] == "v2xml" and lm["xflags"] % 4 < 2 else 0))
-    if lm["of"] == "synthetic":
-        syn = str(lm["sflags"])
-    lines = ["reset", topo_line("lib", kind, src, restrict, allf="0", io="3", tf=lstopo_tf(lm["filt"]), xml=xml, syn=syn)]
+def lstopo_behaviour(item, famdict):
+    lm, cfg = item["lm"], item["cfg"]
+    if item["src"]:
+        kind, src, restrict = "S", item["src"], ""
+    else:
+        _, kind, src, restrict = famdict[item["fam"]]
+    xml = "-" if cfg["xmlf"] < 0 else str(cfg["xmlf"])
+    syn = "-" if cfg["synf"] < 0 else str(cfg["synf"])
+    lines = ["reset", topo_line("lib", kind, src, restrict, flags=cfg["fl"], allf="0", io="3", tf=cfg["tf"] or "-", xml=xml, syn=syn)]
     save = "@W@/ls.out"
-    lines.append("lstopo " + json.dumps({"lm": lm, "argv": lstopo_argv(lm), "save": save}, separators=(",", ":")))
-    if lm["of"] == "xml" and not lm["extra"]:
-        lines.append(topo_line("re", "X", save, "", allf="0"))
-    if lm["of"] == "synthetic" and not lm["extra"]:
-        lines.append(topo_line("re", "S", "@PREV@", "", allf="0"))
+    lines.append("lstopo " + json.dumps({"lm": lm, "argv": item["argv"], "save": save, "T": item["T"]}, separators=(",", ":")))
+    if item["reload"]:
+        if lm["of"] == "synthetic":
+            lines.append(topo_line("re", "S", "@PREV@", "", allf="0"))
+        else:
+            lines.append(topo_line("re", "X", save, "", allf="0"))
     return "\n".join(lines) + "\n"
 
 
@@ -299,24 +369,45 @@ EDITS = [
 ]
 
 
-def diffpatch_behaviours(ctx, thorough):
-    """A = the I/O family XML, B = A with one edit (renamed object / changed info value / changed NUMA local memory / removed object)"""
+def diffpatch_behaviours(ctx, ex, thorough):
+    """A = the I/O family XML, B = A with one edit (renamed object / changed info value / changed NUMA local memory / removed object).
+    hwloc-patch also takes the diff from its standard input ("-"), which it reads in chunks: B = A with an info value so long that
+    the diff file has a chosen size, around powers of two from 4096 and well beyond (the size of a diff is linear in the length of the
+    value; one hwloc-diff run on a 16-character value calibrates it)"""
     a = open(ctx.path("fam-io.xml")).read()
-    behs = []
-    for k, (kind, pat, rep) in enumerate(EDITS):
+    pat_backend = r'(<info name="Backend" value=")[^"]*(")'
+    cases = []
+    for kind, pat, rep in EDITS:
         b = a if pat is None else re.sub(pat, rep, a, count=1)
         if pat is not None and b == a:
-            raise vlib.Infra("edit %d does not apply to the I/O XML" % k)
-        bp = ctx.path("fam-io-b%d.xml" % k)
+            raise vlib.Infra("edit %d does not apply to the I/O XML" % len(cases))
+        cases.append((kind, b, False, "%d" % len(cases)))
+    cases.append(("info", re.sub(r'(<info name="SyntheticDescription" value=")[^"]*(")', r"\1other\2", a, count=1), True, "sd"))
+    cal, cald = ctx.path("fam-io-cal.xml"), ctx.path("fam-io-cal.diff")
+    open(cal, "w").write(re.sub(pat_backend, r"\g<1>" + "v" * 16 + r"\2", a, count=1))
+    r, err = ex.tool("hwloc-diff", [ctx.path("fam-io.xml"), cal, cald])
+    if r["rc"] != 0 or not os.path.exists(cald):
+        raise vlib.Infra("calibration hwloc-diff failed: " + err[-500:])
+    size16 = os.path.getsize(cald)
+    if thorough:
+        targets = list(range(4094, 4099)) + list(range(8190, 8195)) + [16383, 16384, 16385, 65536, 65537, 200000]
+    else:
+        targets = [4095, 4096, 4097, 8192, 8193, 65536]
+    for t in targets:
+        cases.append(("info", re.sub(pat_backend, r"\g<1>" + "v" * (t - size16 + 16) + r"\2", a, count=1), True, "s%d" % t))
+    cases.append(("info", re.sub(pat_backend, r"\g<1>" + "v" * (5000 - size16 + 16) + r"\2", a, count=1), False, "f5000"))
+    behs = []
+    for kind, b, sin, k in cases:
+        bp = ctx.path("fam-io-b%s.xml" % k)
         open(bp, "w").write(b)
         lines = ["reset",
                  topo_line("a", "X", "@DIR@/fam-io.xml", "", flags=9, xml="0"),
-                 topo_line("b", "X", "@DIR@/fam-io-b%d.xml" % k, "", flags=9, xml="0"),
+                 topo_line("b", "X", "@DIR@/fam-io-b%s.xml" % k, "", flags=9, xml="0"),
                  "diff " + json.dumps({"edit": kind, "out": "@W@/d.xml"}),
-                 "patch " + json.dumps({"reverse": False, "diff": "@W@/d.xml", "out": "@W@/p.xml"}),
+                 "patch " + json.dumps({"reverse": False, "diff": "@W@/d.xml", "out": "@W@/p.xml", "stdin": sin}),
                  topo_line("p", "X", "@W@/p.xml", "", flags=9, xml="0"),
                  "patched " + json.dumps({"reverse": False}),
-                 "patch " + json.dumps({"reverse": True, "diff": "@W@/d.xml", "out": "@W@/q.xml"}),
+                 "patch " + json.dumps({"reverse": True, "diff": "@W@/d.xml", "out": "@W@/q.xml", "stdin": sin}),
                  topo_line("q", "X", "@W@/q.xml", "", flags=9, xml="0"),
                  "patched " + json.dumps({"reverse": True})]
         behs.append("\n".join(lines) + "\n")
@@ -349,7 +440,7 @@ def run(ctx, replay=None):
 
     if replay:
         if os.path.exists(ctx.path("fam-io.xml")):
-            diffpatch_behaviours(ctx, True)      # recreates the edited XML files a diff/patch replay refers to
+            diffpatch_behaviours(ctx, ex, True)      # recreates the edited XML files a diff/patch replay refers to (thorough: a superset)
         rej = replay_fn(open(replay).read(), verbose=True)
         for r in rej:
             vlib.log("rejected event:", r["line"][:1500])
@@ -360,22 +451,44 @@ def run(ctx, replay=None):
     thorough = ctx.tier == "thorough"
     rng = random.Random(ctx.seed)
     fams = [f for f in FAMILIES if thorough or f[0] in QUICK_FAMILIES]
+    famdict = {f[0]: f for f in FAMILIES}
+
+    # (0) TLC enumerates the lstopo command lines and generates the wide inputs
+    ls_items = lstopo_model(ctx, ex, fams, thorough)
 
     # (1) TLC enumerates command lines per family, on the projection of the input the tools will get
-    base = [["A"], ["all", "B"], ["X"], ["all", "X"]]
+    base = [["A"], ["all", "B"], ["X"], ["all", "X"], ["L"], ["all", "L"]]
     if thorough:
         runs = [("s", base + [["O", "P"]], 150, ctx.seed % 150, True),
                 ("m", [["M", "M"], ["O", "m", "m"], ["O", "R", "R"], ["m", "m", "m"]], 1200, ctx.seed % 1200, False)]
+        wruns = [("w", [["W"], ["O", "W"], ["W", "W"]], 40, ctx.seed % 40, False)]
+        wdist = 4
     else:
         runs = [("s", base + [["O", "p"]], 600, ctx.seed % 600, True),
                 ("m", [["M", "M"], ["O", "m", "m"], ["m", "m", "m"]], 3000, ctx.seed % 3000, False)]
+        wruns = [("w", [["W"], ["O", "W"]], 150, ctx.seed % 150, False)]
+        wdist = 16
+    # the wide input family of hwloc-calc / hwloc-distrib: the generated member of MC_Lstopo's wpu family whose synthetic
+    # description is CALC_WIDE_T characters long (hundreds of PUs with sparse OS indexes: -I / --largest lists, set strings
+    # and input lines of more than a thousand characters)
+    wsrc = [i["src"] for i in ls_items if i["T"] == CALC_WIDE_T and i["fam"] == "wpu" and i["lm"]["of"] == "synthetic" and i["lm"]["dest"] == "of" and not i["lm"]["sw"]]
+    if not wsrc:
+        raise vlib.Infra("MC_Lstopo did not generate the wide hwloc-calc family")
+    wide = ("wide", "S", wsrc[0], "")
     jobs = []
-    for fam in fams:
+    only = os.environ.get("C20_ONLY", "")          # development aid: C20_ONLY=lstopo / wide skips the other hwloc-calc / hwloc-distrib models
+    for fam in ([] if only in ("lstopo", "wide") else fams):
         tfile = family_topo_event(ctx, ex, fam, "calc")
         dfile = family_topo_event(ctx, ex, fam, "distrib")
         for tag, shapes, ns, stripe, laws in runs:
             jobs.append((fam, "calc", tag, tfile, shapes, ns, stripe, laws))
         jobs.append((fam, "distrib", "d", dfile, [], 1 if thorough else 3, 0 if thorough else ctx.seed % 3, False))
+    if only != "lstopo":
+        tfile = family_topo_event(ctx, ex, wide, "calc")
+        dfile = family_topo_event(ctx, ex, wide, "distrib")
+        for tag, shapes, ns, stripe, laws in wruns:
+            jobs.append((wide, "calc", tag, tfile, shapes, ns, stripe, laws))
+        jobs.append((wide, "distrib", "d", dfile, [], wdist, ctx.seed % wdist, False))
 
     def mc(job):
         fam, cfg, tag, tfile, shapes, ns, stripe, laws = job
@@ -391,16 +504,18 @@ def run(ctx, replay=None):
 
     # (2) behaviours: per family, batches of sessions; inputs of the recorded finding go to behaviours of their own
     behs = []
+    wbehs = []       # behaviours on the wide family: each event costs seconds to validate, so they get a trace (and shards) of their own
     special = []     # inputs of a recorded finding: one session per behaviour, validated apart so that nothing else is masked
-    per = 25
     ninv = 0
     for job, (calcs, distribs) in zip(jobs, results):
         fam, cfg = job[0], job[1]
+        per = 4 if fam[0] == "wide" else 25
+        out = wbehs if fam[0] == "wide" else behs
         head = ["reset", fam_topo_line(fam, cfg)]
         if cfg == "distrib":
             lines = ["distrib " + json.dumps(d, separators=(",", ":")) for d in distribs]
             for k in range(0, len(lines), per):
-                behs.append("\n".join(head + lines[k:k + per]) + "\n")
+                out.append("\n".join(head + lines[k:k + per]) + "\n")
             ninv += len(lines)
             continue
         plain = [s for s in calcs if s["cls"] == ""]
@@ -409,16 +524,17 @@ def run(ctx, replay=None):
         for s in plain:
             cur += session_lines(s)
             if len(cur) >= per:
-                behs.append("\n".join(head + cur) + "\n")
+                out.append("\n".join(head + cur) + "\n")
                 cur = []
         if cur:
-            behs.append("\n".join(head + cur) + "\n")
+            out.append("\n".join(head + cur) + "\n")
         for s in calcs:
             if s["cls"]:
                 special.append("\n".join(head + ["class " + s["cls"]] + session_lines(s)) + "\n")
             ninv += len(s["invs"])
-    behs += lstopo_behaviours(fams, thorough)
-    behs += diffpatch_behaviours(ctx, thorough)
+    behs += [lstopo_behaviour(i, famdict) for i in ls_items if not i["T"]]
+    wbehs += [lstopo_behaviour(i, famdict) for i in ls_items if i["T"]]
+    behs += diffpatch_behaviours(ctx, ex, thorough)
     ctx.samples = [behs[0], behs[len(behs) // 2], behs[-1]]
     rng.shuffle(special)
     nspecial = len(special)
@@ -426,17 +542,50 @@ def run(ctx, replay=None):
     tf = ctx.path("trace.ndjson")
     ex.run_all(behs, tf)
     rejs = ctx.validate("TraceCalc", tf, nshards=vlib.NCPU, timeout=3000)
+    tfw = ctx.path("trace-wide.ndjson")
+    rng.shuffle(wbehs)
+    ex.run_all(wbehs, tfw, base=len(behs))
+    rejs += ctx.validate("TraceCalc", tfw, nshards=vlib.NCPU, timeout=3000)
     if special:
         tf2 = ctx.path("trace-special.ndjson")
-        ex.run_all(special, tf2, base=len(behs))
+        ex.run_all(special, tf2, base=len(behs) + len(wbehs))
         rejs += ctx.validate("TraceCalc", tf2, nshards=4, timeout=3000, max_rej=len(special) + 1)
-    ctx.handle_rejections(rejs, behs + special, replay_fn)
+    ctx.handle_rejections(rejs, behs + wbehs + special, replay_fn)
+    # statistics of what the generated inputs reached (nothing here judges the tools)
+    aimed, hit, dsizes, longest, nstdin = [], [], [], 0, 0
+    for tfn in (tf, tfw, ctx.path("trace-special.ndjson")):
+        if not os.path.exists(tfn):
+            continue
+        for line in open(tfn):
+            if line.startswith('{"e":"lstopo"'):
+                m = re.search(r'"T":(\d+),"liblen":(-?\d+)', line)
+                if m and int(m.group(1)) and int(m.group(2)) >= 0:
+                    aimed.append(int(m.group(1)))
+                    hit.append(int(m.group(2)))
+            elif line.startswith('{"e":"patch"'):
+                m = re.search(r'"stdin":1,"dsize":(\d+)', line)
+                if m:
+                    dsizes.append(int(m.group(1)))
+            elif line.startswith('{"e":"calc"'):
+                e = json.loads(line)
+                longest = max([longest] + [len(x) for x in e["lines"]])
+                if e["mode"]["m"] == "stdin":
+                    nstdin += 1
+    if aimed != hit:
+        ctx.notes.append("synthetic export lengths aimed at %s, reached %s" % (aimed, hit))
     return ctx.finish(
         rule="for each input family TLC enumerates hwloc-calc command lines from MC_Calc.tla (location sequences over the token alphabet of the loaded "
-             "projection x groups of output modes, striped), hwloc-distrib command lines, and fixed lstopo / hwloc-diff+patch scenarios; every "
+             "projection x groups of output modes incl. locations on the standard input, striped), hwloc-distrib command lines, lstopo command lines from "
+             "MC_Lstopo.tla (format x destination x filter option x export flag words x console options x malformed variants on every family, plus "
+             "generated wide synthetic inputs whose export lengths straddle powers of two from 1024), and hwloc-diff+patch scenarios (diff files and "
+             "diffs on the standard input with sizes around powers of two from 4096); every "
              "invocation of the rebuilt ASan tools is one trace event validated by TLC against Calc.tla. Non-trivial = the behaviour has at least one tool invocation.",
-        assumptions=["hwloc-calc options --no-smt, --cpukind, --local-memory, --best-memattr, stdin mode and type filters ([subtype], [tier=]) are not modelled",
+        assumptions=["hwloc-calc options --no-smt, --cpukind, --local-memory, --best-memattr and type filters ([subtype], [tier=]) are not modelled",
+                     "lstopo --filter <type> without a kind and --ignore <unknown type> are not generated (documentation and code disagree; reported apart); "
+                     "the console rendering is only checked for crashes",
                      "where hwloc(7) leaves a location open (memory objects in chains, x:y starting past the level, guessed set formats that are ambiguous) only the exit status / absence of crash is checked",
                      "lstopo graphical and text renderings, hwloc-bind, hwloc-ps, hwloc-annotate, hwloc-info are outside the property"],
-        extra={"behaviours": len(behs) + len(special), "invocations": ninv, "families": [f[0] for f in fams],
+        extra={"behaviours": len(behs) + len(wbehs) + len(special), "invocations": ninv, "families": [f[0] for f in fams] + ["wide(%d chars)" % len(wide[2])],
+               "lstopo_scenarios": len(ls_items), "synthetic_export_lengths_reached": sorted(set(hit)), "stdin_diff_sizes": sorted(set(dsizes)),
+               "longest_hwloc_calc_output_line": longest, "hwloc_calc_stdin_invocations": nstdin,
                "recorded_finding_inputs": {"generated": nspecial, "run": len(special)}})
